@@ -61,7 +61,7 @@ def gen_case(rng, m, tier):
         nl = r.choice(list(range(2, 11)))
         rr = r.choice(list(range(1, 9)))
         p = r.choice([1, 1, 2, 3])
-        n = r.choice([0, 1, 8, 16, 22, 43, 86])
+        n = r.choice([0, 1, 8, 16, 22, 43, 86]) if r.random() < 0.5 else r.randint(0, 130)
         sl = salt(r, n)
         dollar = n >= 3 and r.random() < 0.25      # scrypt salts may contain '$'
         if dollar:
@@ -92,7 +92,7 @@ def gen_case(rng, m, tier):
                 params += gen.yes_enc_uint(p, 2)
             if t:
                 params += gen.yes_enc_uint(t, 1)
-        nb = r.choice([0, 1, 8, 16, 17, 32, 64])
+        nb = r.choice([0, 1, 8, 16, 17, 32, 64]) if r.random() < 0.5 else r.randint(0, 64)
         s = gen.TAG[m] + params + b"$" + gen.yes_encode64(bytes(r.getrandbits(8) for _ in range(nb))) + \
             r.choice([b"", b"$", b"$" + salt(r, 43)])
         return s, "%s/%s/N%d/r%d/p%d/t%d" % (m[:4], fl.decode(), nl, rr, p, t), 0.02
@@ -119,7 +119,7 @@ def make_cases(seed, tier):
 def do_chunk(chunk):
     acc = common.Acc()
     workers = {"opt": rt.vw("opt"), "asan": rt.vw("asan"), "sys": rt.vw("sys")}
-    setup = [rt.obj_line(0, align=7, fill="r", seed=11)]
+    setup = [rt.obj_line(0, align=7, fill="r", seed=11), "preerrno %d" % (0, 34, 22)[len(chunk) % 3]]
     lines = [rt.crypt_line("crypt_rn", 0, p, s) for (_, _, p, s, _) in chunk]
     rows = {k: rt.run_resilient(w, setup, lines, timeout=300) for k, w in workers.items()}
     # gost model needs the $y$ hash of the derived setting (from the tree; itself compared with sys)
